@@ -16,6 +16,7 @@ CONSTANTS
   MaxStack = 1
   MinParen = TRUE
   TwoPhase = FALSE
+  Rnd = FALSE
 INIT Init
 NEXT Next
 INVARIANT EmitInv
